@@ -18,8 +18,9 @@ import (
 )
 
 type DocSpec struct {
-	Kind  string // xml, json, html
-	Bytes []byte
+	Kind   string // xml, json, html
+	Bytes  []byte
+	Family string // "" or "capacity" (see capacityDoc)
 }
 
 type Doc struct {
@@ -59,18 +60,59 @@ func ParseDoc(spec DocSpec) (*Doc, error) {
 	return d, nil
 }
 
+// capacityDoc: sibling elements whose attribute / child lists have spare
+// capacity in the store (3, 5, 6, 7 entries) followed by siblings with one
+// entry: if the evaluator appends to a slice handed out by the Cursor API, the
+// appended cursors land in the tree's own backing array.
+func capacityDoc(t *simkit.Tape) DocSpec {
+	var b strings.Builder
+	b.WriteString("<r>")
+	n := 2 + t.Draw(3)
+	for i := 0; i < n; i++ {
+		name := []string{"a", "b", "c", "item"}[t.Draw(4)]
+		k := []int{3, 5, 6, 7, 1, 1, 2}[t.Draw(7)]
+		if i > 0 && t.Bool(2, 3) {
+			k = 1
+		}
+		fmt.Fprintf(&b, "<%s", name)
+		for j := 0; j < k; j++ {
+			fmt.Fprintf(&b, " %s%d=\"%d\"", []string{"id", "a", "b"}[t.Draw(3)], j, i*10+j)
+		}
+		kids := []int{0, 0, 1, 3, 5}[t.Draw(5)]
+		if kids == 0 {
+			b.WriteString("/>")
+			continue
+		}
+		b.WriteString(">")
+		for j := 0; j < kids; j++ {
+			cn := []string{"a", "b", "c"}[t.Draw(3)]
+			fmt.Fprintf(&b, "<%s>%d</%s>", cn, j, cn)
+		}
+		fmt.Fprintf(&b, "</%s>", name)
+	}
+	b.WriteString("</r>")
+	return DocSpec{Kind: "xml", Bytes: []byte(b.String()), Family: "capacity"}
+}
+
+// CapacityExprs select, from the siblings of a capacity document, context
+// node-sets whose first node has spare capacity in its lists.
+var CapacityExprs = []string{"/*/*/@*", "/*/*[position() < 3]/@*", "/*/*[position() != 2]/@*", "/*/*[position() != 3]/@*", "/*/*[1]/@* | /*/*[2]/@*", "/*/*[@*]/@*", "/*/*/node()", "/*/*[position() < 3]/*", "/*/*[position() != 2]/node()"}
+
 // GenDocSpec draws a document of one of the three kinds.
 func GenDocSpec(t *simkit.Tape) DocSpec {
+	if t.Bool(1, 7) {
+		return capacityDoc(t)
+	}
 	switch t.Pick(5, 1, 1) {
 	case 1:
 		cfg := model.DrawJSONConfig(t)
 		cfg.TopLevel = 1
-		return DocSpec{"json", model.SerialiseJSON(t, cfg, model.GenJSON(t, cfg))}
+		return DocSpec{Kind: "json", Bytes: model.SerialiseJSON(t, cfg, model.GenJSON(t, cfg))}
 	case 2:
 		cfg := model.DrawHTMLConfig(t)
 		cfg.Doctype = 0
 		cfg.Soup = false
-		return DocSpec{"html", model.GenHTML(t, cfg)}
+		return DocSpec{Kind: "html", Bytes: model.GenHTML(t, cfg)}
 	}
 	cfg := model.DrawXMLConfig(t)
 	cfg.Encoding = ""
@@ -85,7 +127,7 @@ func GenDocSpec(t *simkit.Tape) DocSpec {
 		cfg.MaxDepth = 3
 	}
 	doc := model.GenXML(t, cfg)
-	return DocSpec{"xml", model.SerialiseXML(t, cfg, doc).Bytes}
+	return DocSpec{Kind: "xml", Bytes: model.SerialiseXML(t, cfg, doc).Bytes}
 }
 
 // Value is a world-independent description of an XPath value.
